@@ -30,20 +30,30 @@ func fileOf(c *core.Ctx, fn *ssa.Function) string {
 // tagAttribution: which properties a tag read in this function belongs to.
 func tagAttribution(c *core.Ctx, fn *ssa.Function) []string {
 	pkg := c.P.PkgOf(fn)
-	switch {
-	case strings.HasSuffix(pkg, "/handler/sqlite"):
+	if strings.HasSuffix(pkg, "/handler/sqlite") {
 		return []string{"C06"}
-	case fileOf(c, fn) == "event_matcher.go":
+	}
+	root := fn
+	for root.Parent() != nil {
+		root = root.Parent()
+	}
+	owners := ownerTypes(c, fn)
+	has := func(sub string) bool {
+		for o := range owners {
+			if strings.Contains(o, sub) {
+				return true
+			}
+		}
+		return false
+	}
+	name := an.ShortName(root)
+	switch {
+	case has("Matcher") || strings.Contains(name, "Matcher"):
 		return []string{"C02"}
-	case fileOf(c, fn) == "event_cache.go":
-		root := fn
-		for root.Parent() != nil {
-			root = root.Parent()
-		}
-		if strings.Contains(root.Name(), "keysFrom") {
-			return []string{"C03"}
-		}
-		if strings.Contains(root.Name(), "Kind5") {
+	case has("eventCacheEvsIndex") || strings.Contains(name, "keysFrom"):
+		return []string{"C03"}
+	case has("EventCache"):
+		if strings.Contains(name, "Kind5") {
 			return []string{"C05"}
 		}
 		return []string{"C04", "C05"}
